@@ -176,31 +176,33 @@ theorem caller_objects_untouched (op : Op) (hop : isHandleOp op = true) (w : Wor
     first
     | exact strmInit_ix S _ w fail h
     | exact onRoot_ix _ w fail h
+    | (simp only [runOp]; split <;> first | rfl | exact onRoot_ix _ w fail h)
     | (simp only [runOp, run_bind, run_pure]; exact lzmaEnd_ix _ _ _)
 
 /-! ### encoder_update_atomic -/
 
 /-- `stream_encoder_update` copies the new chain to a temporary first: if that copy fails, the encoder is
     exactly as before (same coder tree, same option array) and nothing stays allocated. -/
-theorem encoder_update_atomic (c : Chain) (n : Node) (fail : Oracle) (h : Heap) (F : List Nat) (hg : Good h (n.ids ++ F))
+theorem encoder_update_atomic (cur c : Chain) (n : Node) (fail : Oracle) (h : Heap) (F : List Nat) (hg : Good h (n.ids ++ F))
     (hc : (filtersCopy (c.map (optSizeCopy S)) fail h).1 = none) :
-    (streamEncoderUpdate S c n fail h).1 = (MEM_ERROR, n) ∧ Good (streamEncoderUpdate S c n fail h).2 (n.ids ++ F) := by
-  have hv : (streamEncoderUpdate S c n fail h).1 = (MEM_ERROR, n) := by
+    (streamEncoderUpdate S cur c n fail h).1 = (MEM_ERROR, n) ∧ Good (streamEncoderUpdate S cur c n fail h).2 (n.ids ++ F) := by
+  have hv : (streamEncoderUpdate S cur c n fail h).1 = (MEM_ERROR, n) := by
     unfold streamEncoderUpdate replaceOpts
     simp only [run_bind, hc, run_pure]
   refine ⟨hv, ?_⟩
-  have := safe_streamEncoderUpdate S c n fail h F hg
+  have := safe_streamEncoderUpdate S cur c n fail h F hg
   rw [hv] at this
   exact this
 
-/-- ... and ANY failing update (whatever allocation failed, or an invalid chain) leaves the encoder's own
+/-- ... and ANY failing update (whatever allocation failed, or a REFUSED change: mid-Block change of the Filter IDs, an
+    update inside an LZMA2 chunk, an update after the last Block — all of which free the temporary copy) leaves the encoder's own
     filter-option array, its coder struct and its init function as they were: the encoder stays usable. -/
-theorem encoder_update_keeps_options (c : Chain) (i self : Nat) (bufs : List (Option Nat)) (data : List Nat)
+theorem encoder_update_keeps_options (cur c : Chain) (i self : Nat) (bufs : List (Option Nat)) (data : List Nat)
     (opts : List (Option Nat)) (ix0 ix1 : Option Index) (s0 s1 : Node) (fail : Oracle) (h : Heap)
-    (hr : (streamEncoderUpdate S c (.mk i self bufs data opts ix0 ix1 s0 s1) fail h).1.1 ≠ OK) :
+    (hr : (streamEncoderUpdate S cur c (.mk i self bufs data opts ix0 ix1 s0 s1) fail h).1.1 ≠ OK) :
     ∃ bufs' data' ix0' ix1' s0' s1',
-      (streamEncoderUpdate S c (.mk i self bufs data opts ix0 ix1 s0 s1) fail h).1.2 = .mk i self bufs' data' opts ix0' ix1' s0' s1' :=
-  streamEncoderUpdate_fail_keeps S c i self bufs data opts ix0 ix1 s0 s1 fail h hr
+      (streamEncoderUpdate S cur c (.mk i self bufs data opts ix0 ix1 s0 s1) fail h).1.2 = .mk i self bufs' data' opts ix0' ix1' s0' s1' :=
+  streamEncoderUpdate_fail_keeps S cur c i self bufs data opts ix0 ix1 s0 s1 fail h hr
 
 /-! ### non-vacuity: concrete histories evaluated by the kernel -/
 
